@@ -876,12 +876,28 @@ def canary_spec(lines):
     return out
 
 
+def expand_includes(text, include_root, depth=0):
+    if depth > 5:
+        raise LiftError("include nesting too deep")
+    out = []
+    for ln in text.split('\n'):
+        st = ln.strip()
+        if st.startswith('//@include '):
+            p = os.path.join(include_root, st[len('//@include '):].strip())
+            if not os.path.exists(p):
+                raise LiftError("include file %s missing" % p)
+            out.append(expand_includes(open(p, encoding='utf-8').read().rstrip('\n'), include_root, depth + 1))
+        else:
+            out.append(ln)
+    return '\n'.join(out)
+
+
 def build_unit(template_path, repo, canary=False, include_root=None):
-    text = open(template_path, encoding='utf-8').read()
+    include_root = include_root or os.path.dirname(os.path.dirname(os.path.dirname(os.path.abspath(template_path))))
+    text = expand_includes(open(template_path, encoding='utf-8').read(), include_root)
     items = parse_template(text)
     out_lines = []      # (text_line, src_file, src_line)
     infos = []
-    include_root = include_root or os.path.dirname(os.path.dirname(os.path.dirname(os.path.abspath(template_path))))
 
     def emit_text(tx, origin=None):
         for ln in tx.split('\n'):
@@ -891,14 +907,6 @@ def build_unit(template_path, repo, canary=False, include_root=None):
         if kind_ == 'text':
             t = val[:-1] if val.endswith('\n') else val
             emit_text(t)
-        elif kind_ == 'include':
-            p = os.path.join(include_root, val)
-            inc = open(p, encoding='utf-8').read()
-            sub_items = parse_template(inc)
-            for k2, v2 in sub_items:
-                if k2 != 'text':
-                    raise LiftError("include %s: directives not allowed in included files" % val)
-                emit_text(v2.rstrip('\n'))
         else:
             variants = [(False, None)]
             if canary and val.head.get('canary') != 'skip':
